@@ -169,6 +169,14 @@ func GenConfig(r *rand.Rand, profile string) Config {
 		c.Stakes[0] = 5_000_000_000 + r.Int63n(1_000_000_000)
 		c.Stakes[c.NVals-1] = 1
 	}
+	if r.Intn(16) == 0 {
+		// a bond coin with 18 decimals: the same proportions with consensus powers around 2^48 and beyond
+		for i := range c.Stakes {
+			if c.Stakes[i] < 1_000_000 {
+				c.Stakes[i] *= 300_000_000_000
+			}
+		}
+	}
 	c.Keys = make([][]bool, c.NVals)
 	for v := range c.Keys {
 		c.Keys[v] = make([]bool, len(Chains))
